@@ -399,7 +399,8 @@ fn issue_crafted(w: &mut World, step: usize) {
     return;
   }
   let (frag, _) = p.methods[ctx::choose(p.methods.len())].clone();
-  let kind = ["vc_expiration_without_exp", "vc_issuer_mismatch", "vc_issuance_mismatch", "exp_out_of_range", "sub_mismatch", "nbf_and_iat"][ctx::choose(6)];
+  let kind = ["vc_expiration_without_exp", "vc_issuer_mismatch", "vc_issuance_mismatch", "exp_out_of_range", "sub_mismatch", "nbf_and_iat", "vc_date_outside_range_after_offset"]
+    [ctx::choose(7)];
   let mut claims = serde_json::json!({
     "iss": p.did,
     "nbf": now_i - 100,
@@ -416,6 +417,15 @@ fn issue_crafted(w: &mut World, step: usize) {
     "vc_issuer_mismatch" => claims["vc"]["issuer"] = "did:sim:someoneelse".into(),
     "vc_issuance_mismatch" => claims["vc"]["issuanceDate"] = crate::core::time::rfc3339(now_i - 5000).into(),
     "exp_out_of_range" => claims["exp"] = Value::from(1_000_000_000_000_000i64),
+    "vc_date_outside_range_after_offset" => {
+      // RFC 3339 strings that denote an instant outside years 0000-9999 once the offset is applied: not a date the
+      // credential model can carry (and no registered claim agrees with it)
+      if ctx::choose(2) == 0 {
+        claims["vc"]["expirationDate"] = "9999-12-31T23:59:59-01:00".into();
+      } else {
+        claims["vc"]["issuanceDate"] = "0000-01-01T00:00:00+01:00".into();
+      }
+    }
     "nbf_and_iat" => {
       // both claims present: the credential is valid from nbf (here in the future), iat (in the past) is only the
       // time of signing
